@@ -25,6 +25,7 @@ def regen(ctx):
     importlib.reload(x_c12)
     x_c12.REPO = vcommon.REPO
     ctx.regen("Bee2V/Gen/C12Tables.lean", x_c12.generate())
+    ctx.regen("Bee2V/Gen/C12Consts.lean", x_c12.generate_consts())
 
 
 # =========================================================================== independent arithmetic (props/C12_arith.py)
@@ -143,7 +144,7 @@ def gen_primew(ctx, W):
     def add(a, k):
         if 0 <= a < M and a not in xs:
             xs[a] = k
-    win = 2000 if ctx.tier == "quick" else 20000
+    win = 600 if ctx.tier == "quick" else 20000
     for a in range(0, 3000):
         add(a, "small")
     for t in THRESH:
@@ -342,7 +343,8 @@ def corpus(ctx):
 def generate(ctx, std, bels):
     import x_c12
     ops = corpus(ctx)
-    ops += C12_val.generate(ctx, std, bels, x_c12.extract_lr("src/crypto/stb99.c"), x_c12.extract_lr("src/crypto/pfok.c"))
+    ops += C12_val.generate(ctx, std, bels, x_c12.extract_lr("src/crypto/stb99.c"), x_c12.extract_lr("src/crypto/pfok.c"),
+                            x_c12.extract_consts()["stb99RiMargin"])
     ops += gen_dates(ctx)
     for W in (64, 32):
         ops += gen_primew(ctx, W)
